@@ -1,0 +1,7 @@
+//go:build verif
+
+package cache
+
+// Contracts for the goverif VC generator (/verif). Comment-only file: it adds no code.
+
+//@ type internalCacheT guarded_by mutex: cache
